@@ -22,7 +22,13 @@ def pairs(tier, rnd, units):
         s1 = u1['spec'] if p1 is None else common.with_prefix(u1['spec'], *p1)
         s2 = u2['spec'] if p2 is None else common.with_prefix(u2['spec'], *p2)
         e1 = common.exact_size(u1['spec'], p1); e2 = common.exact_size(u2['spec'], p2)
-        differ = '' if (e1 is None or e2 is None) else ('1' if e1 != e2 else '0')
+        # "differ in size" from the definition trees alone. Two definitions of the same real number through different
+        # inexact constants (revolution = 2π rad, turn = 360°) differ as exact rationals by a rounding error only:
+        # such near-ties are left to the implementation's own comparison of its factors (no cfg 2).
+        if e1 is None or e2 is None: differ = ''
+        elif e1 == e2: differ = '0'
+        elif abs(e1 - e2) <= max(abs(e1), abs(e2)) / 10**9: differ = ''
+        else: differ = '1'
         cfg = {0: s1, 1: s2}
         if differ: cfg[2] = differ
         out.append({'id': 'p%d' % len(out), 'label': '%s vs %s' % (common.label(u1, p1), common.label(u2, p2)), 'cfg': cfg})
